@@ -8,4 +8,5 @@ mkdir -p .build
 [ -f harness/Cargo.lock ] || cp /repo/Cargo.lock harness/Cargo.lock
 ( cd harness && CARGO_TARGET_DIR=/verif/.build/target cargo build --release --offline )
 ( cd harness && CARGO_TARGET_DIR=/verif/.build/target-par cargo build --release --offline --features par )
+( cd harness && CARGO_TARGET_DIR=/verif/.build/target-kurbo cargo build --release --offline --features kurbo )
 echo setup-ok
